@@ -336,8 +336,13 @@ func c04(c *Ctx) {
 		for _, b := range fn.Blocks {
 			for _, in := range b.Instrs {
 				if s, ok := in.(*ssa.Send); ok {
-					if _, ok := isFieldLoadNamed(s.Chan, hk.ch); ok {
-						sends = append(sends, s)
+					// the connection's line channel: a send on a channel-of-string field of the receiver (by role)
+					if ld, ok := isLoad(s.Chan); ok {
+						if fa, ok := ld.X.(*ssa.FieldAddr); ok && fa.X == ssa.Value(fn.Params[0]) {
+							if ch, ok := ld.Type().Underlying().(*types.Chan); ok && types.Identical(ch.Elem().Underlying(), types.Typ[types.String]) {
+								sends = append(sends, s)
+							}
+						}
 					}
 				}
 			}
